@@ -171,6 +171,31 @@ def execute(ctx):
         check_ped(ctx)
 
 
+class BurnHistory:
+    """The order in which a caller slices and summarises a trace object is itself a history: direct
+    burn(n) from the full trace, incremental burn(1) chains (burn -> posterior -> burn ...), or summaries
+    taken from the parent before any burn.  The result for a total burn-in of n must not depend on it."""
+
+    def __init__(self, ctx, trace):
+        self.mode = ["direct", "incremental", "parent_first", "direct"][ctx.tape.int(0, 3)]
+        self.trace = trace
+        self.cur = trace
+        self.n = 0
+        ctx.counters.inc("burn_history_" + self.mode)
+        if self.mode == "parent_first":
+            trace.posterior()
+            if hasattr(trace, "posterior_frequencies"):
+                trace.posterior_frequencies()
+
+    def at(self, burn):
+        if self.mode != "incremental":
+            return self.trace.burn(burn)
+        while self.n < burn:
+            self.cur = self.cur.burn(1)
+            self.n += 1
+        return self.cur if burn > 0 else self.trace.burn(0)
+
+
 def close(a, b):
     return abs(float(a) - float(b)) <= TOL
 
@@ -243,10 +268,11 @@ def check_assemble_trace(ctx, cfg, trace, chains):
     if len(chains) != cfg["chains"] or any(len(c) != steps for c in chains):
         fail(ctx, "trace_accounting", "event log has %r iterations per chain, expected %d x %d" % ([len(c) for c in chains], cfg["chains"], steps))
     support_of = lambda k: tuple(sorted(set(k)))
+    hist = BurnHistory(ctx, trace)
     for burn in range(steps):
         ctx.step = burn
         ctx.counters.inc("burn_values")
-        tb = trace.burn(burn)
+        tb = hist.at(burn)
         dist, total = distribution(chains, burn)
         if total != cfg["chains"] * (steps - burn):
             fail(ctx, "trace_accounting", "retained iterations %d != chains*(steps-burn)" % total)
@@ -343,10 +369,11 @@ def check_alleles_trace(ctx, label, trace, chains, ploidy, n_allele, steps, n_ch
     """trace: GenotypeAllelesMultiTrace; chains: per chain list of sorted allele tuples."""
     np = bootstrap()["np"]
     support_of = lambda k: tuple(sorted(set(k)))
+    hist = BurnHistory(ctx, trace)
     for burn in range(steps):
         ctx.step = burn
         ctx.counters.inc("burn_values")
-        tb = trace.burn(burn)
+        tb = hist.at(burn)
         dist, total = distribution(chains, burn)
         if total != n_chains * (steps - burn):
             fail(ctx, "trace_accounting", "retained iterations %d != chains*(steps-burn)" % total)
